@@ -73,6 +73,64 @@ func buildSecond(dump string) (*tree.Tree, error) {
 	return t2, nil
 }
 
+func opKind(op string) string { return strings.SplitN(op, ":", 2)[0] }
+
+// edits after which an applied rearrangement may still be undone (they change neither the
+// nodes nor the adjacency): order of neighbours, root position, names, indexes
+var _ = keepsPending
+var keepsPending = map[string]bool{"sorttips": true, "rotate": true, "reroot": true, "rerootfirst": true, "reinit": true,
+	"rename": true, "renameauto": true, "renameregex": true, "addquotes": true, "rmquotes": true, "shuffle": true}
+
+// of those, the ones that also keep the names (so that the split set can be compared)
+var keepsNames = map[string]bool{"sorttips": true, "rotate": true, "reroot": true, "rerootfirst": true, "reinit": true}
+
+// applyOp of a history: NNI Apply and NNI Undo are SEPARATE steps; the Rearrangement object
+// lives in the history between them.
+func (h *history) applyOp(t *tree.Tree, op string) (*tree.Tree, error) {
+	f := strings.Split(op, ":")
+	switch f[0] {
+	case "nniapply":
+		if len(f) != 2 {
+			return nil, bad("nniapply wants 1 argument")
+		}
+		k, err := strconv.Atoi(f[1])
+		if err != nil {
+			return nil, bad("index")
+		}
+		h.pending = nil
+		r := &tree.NNIRearranger{}
+		var all []tree.Rearrangement
+		r.Rearrange(t, func(x tree.Rearrangement) bool { all = append(all, x); return true })
+		if len(all) == 0 {
+			return t, nil
+		}
+		x := all[k%len(all)]
+		pre := h.cur.Dump()
+		if err := x.Apply(); err != nil {
+			return t, err
+		}
+		h.pending, h.pendingPre, h.pendingClean, h.pendingFresh = x, pre, true, true
+		return t, nil
+	case "nniundo":
+		if h.pending == nil {
+			return t, nil
+		}
+		x := h.pending
+		h.pending = nil
+		return t, x.Undo()
+	}
+	res, err := applyOp(t, op)
+	if h.pending != nil {
+		h.pendingFresh = false
+		if res != t {
+			h.pending = nil // the history goes on with another tree object (clone, subtree)
+		} else if !keepsNames[f[0]] {
+			h.pendingClean = false // anything may have happened to n1, n2 and their neighbours: Undo succeeds or refuses
+		}
+	}
+	return res, err
+}
+
 // applyOp runs ONE public editing operation of the real library.
 func applyOp(t *tree.Tree, op string) (*tree.Tree, error) {
 	f := strings.Split(op, ":")
@@ -352,6 +410,92 @@ func applyOp(t *tree.Tree, op string) (*tree.Tree, error) {
 		return s, nil
 	case "reinit":
 		return t, t.ReinitIndexes()
+	case "reinitinternal":
+		t.ReinitInternalIndexes()
+		return t, nil
+	case "updatetipindex":
+		return t, t.UpdateTipIndex()
+	case "identicalone":
+		if err := need(2); err != nil {
+			return nil, err
+		}
+		old, e1 := core.Unescape(f[1])
+		nw, e2 := core.Unescape(f[2])
+		if e1 != nil || e2 != nil {
+			return nil, bad("names")
+		}
+		var nd *tree.Node
+		for _, x := range t.Tips() {
+			if x.Name() == old {
+				nd = x
+				break
+			}
+		}
+		if nd == nil {
+			return nil, bad("no such tip")
+		}
+		_, err := t.InsertIdenticalTip(nd, nw)
+		return t, err
+	case "collapseclade":
+		if err := need(3); err != nil {
+			return nil, err
+		}
+		name, e1 := core.Unescape(f[2])
+		names, e2 := parseStrList(f[3])
+		if e1 != nil || e2 != nil {
+			return nil, bad("names")
+		}
+		_, err := t.CollapseClade(flag(f[1]), name, names...)
+		return t, err
+	case "resolvenamed":
+		t.ResolveNamedInternalNodes()
+		return t, nil
+	case "rotateone":
+		if err := need(2); err != nil {
+			return nil, err
+		}
+		p, e1 := parsePath(f[1])
+		seed, e2 := strconv.ParseInt(f[2], 10, 64)
+		if e1 != nil || e2 != nil {
+			return nil, bad("rotateone")
+		}
+		n, _, err := core.NodeAt(t, p)
+		if err != nil {
+			return nil, bad("path out of range")
+		}
+		rand.Seed(seed)
+		n.RotateNeighbors()
+		return t, nil
+	case "clearlengths":
+		if err := need(2); err != nil {
+			return nil, err
+		}
+		t.ClearLengths(flag(f[1]), flag(f[2]))
+		return t, nil
+	case "clearsupports":
+		t.ClearSupports()
+		return t, nil
+	case "clearcomments":
+		t.ClearComments()
+		return t, nil
+	case "scalelengths", "roundlengths":
+		if err := need(3); err != nil {
+			return nil, err
+		}
+		if f[0] == "scalelengths" {
+			x, err := core.ParseRat(f[1])
+			if err != nil {
+				return nil, bad("factor")
+			}
+			t.ScaleLengths(x, flag(f[2]), flag(f[3]))
+		} else {
+			pr, err := strconv.Atoi(f[1])
+			if err != nil {
+				return nil, bad("precision")
+			}
+			t.RoundLengths(pr, flag(f[2]), flag(f[3]))
+		}
+		return t, nil
 	}
 	return nil, bad("unknown op %q", f[0])
 }
@@ -362,7 +506,7 @@ func applyOp(t *tree.Tree, op string) (*tree.Tree, error) {
 // of its non-parent neighbours.
 func drawsFor(op string, before *core.N) string {
 	f := strings.Split(op, ":")
-	if len(f) != 2 || (f[0] != "rotate" && f[0] != "resolve") {
+	if len(f) != 2 || (f[0] != "rotate" && f[0] != "resolve" && f[0] != "shuffle") {
 		return ""
 	}
 	seed, err := strconv.ParseInt(f[1], 10, 64)
@@ -371,6 +515,13 @@ func drawsFor(op string, before *core.N) string {
 	}
 	rand.Seed(seed)
 	var out []int
+	if f[0] == "shuffle" {
+		// rand.Perm(number of tips) = Intn(1) … Intn(n)
+		for i := range before.TipNames() {
+			out = append(out, rand.Intn(i+1))
+		}
+		return "draws=" + core.IntList(out)
+	}
 	var rec func(x *core.N, isRoot bool)
 	rec = func(x *core.N, isRoot bool) {
 		nn := len(x.Kids)
@@ -452,15 +603,15 @@ func startTree(g *core.G) *core.N {
 	if g.Chance(0.25) {
 		o.Lengths = 2
 	}
-	if g.Chance(0.05) {
-		o.Lengths = 0
+	if g.Chance(0.12) {
+		o.Lengths = 0 // no branch length anywhere: the "both absent" branches of every length-fusing edit
 	}
 	o.Supports = 2
 	o.InnerNames = 0.1
 	if g.Chance(0.2) {
 		o.Comments = 0.15
 	}
-	if g.Chance(0.15) {
+	if g.Chance(0.15) || (o.Lengths == 0 && g.Chance(0.5)) {
 		o.Singles = 0.15
 	}
 	n, _ := g.Tree(o)
@@ -510,14 +661,26 @@ var opKinds = []string{
 	"prune", "prune", "prune", "collapselen", "collapsesup", "collapsedepth", "removeedges", "removeedges",
 	"resolve", "resolve", "rotate", "sorttips", "shuffle", "grafttree", "graftedge", "graftedge", "merge",
 	"identical", "removesingle", "nni", "nni", "rename", "renameauto", "renameregex", "addquotes", "rmquotes",
-	"clone", "subtree", "reinit",
+	"clone", "subtree", "reinit", "nniapply", "nniapply", "nniapply",
+	"reinitinternal", "updatetipindex", "identicalone",
+	"collapseclade", "resolvenamed", "rotateone", "clearlengths", "clearsupports", "clearcomments", "scalelengths", "roundlengths",
 }
 
 // genOp draws one operation with its arguments, looking at the current tree.
-func genOp(g *core.G, cur *core.N, k int) string {
+func genOp(g *core.G, h *history, k int) string {
+	cur := h.cur
 	nodes := allNodes(cur)
 	tips := cur.TipNames()
 	kind := opKinds[g.Intn(len(opKinds))]
+	// an applied rearrangement is waiting: undo it now, or after an edit that keeps it valid
+	if h.pending != nil {
+		switch r := g.Intn(10); {
+		case r < 3:
+			return "nniundo"
+		case r < 7:
+			kind = []string{"sorttips", "sorttips", "rotate", "reroot", "rerootfirst", "reinit", "renameregex", "shuffle"}[g.Intn(8)]
+		}
+	}
 	// pruning is only required to cope with trees free of single-child inner nodes
 	if kind == "prune" && hasSingles(cur) {
 		kind = "removesingle"
@@ -666,6 +829,38 @@ func genOp(g *core.G, cur *core.N, k int) string {
 		return "identical:" + strings.Join(groups, "+")
 	case "nni":
 		return fmt.Sprintf("nni:%d:%s", g.Intn(40), b2s(g.Chance(0.3)))
+	case "nniapply":
+		return fmt.Sprintf("nniapply:%d", g.Intn(40))
+	case "identicalone":
+		if len(tips) == 0 {
+			return "reinit"
+		}
+		return "identicalone:" + core.Escape(tips[g.Intn(len(tips))]) + ":" + fmt.Sprintf("j%d", k)
+	case "collapseclade":
+		var names []string
+		if len(nonroot) > 0 && g.Chance(0.7) {
+			names = nonroot[g.Intn(len(nonroot))].n.Leaves()
+		} else {
+			names = subset(g, tips, 1+g.Intn(3))
+		}
+		return "collapseclade:" + b2s(g.Chance(0.5)) + ":" + fmt.Sprintf("cc%d", k) + ":" + core.StrList(names)
+	case "rotateone":
+		return fmt.Sprintf("rotateone:%s:%d", pathStr(nodes[g.Intn(len(nodes))].path), g.Intn(1<<30))
+	case "clearlengths":
+		return "clearlengths:" + b2s(g.Chance(0.6)) + ":" + b2s(g.Chance(0.6))
+	case "scalelengths":
+		return "scalelengths:" + []string{"1/2", "2", "3/4", "4"}[g.Intn(4)] /* not 0: -0.5*0 = -0, which a rational cannot carry */ + ":" + b2s(g.Chance(0.7)) + ":" + b2s(g.Chance(0.7))
+	case "roundlengths":
+		// precision 0 only: other roundings leave the dyadic numbers on which the exact comparison of
+		// later length sums with the models rests (checks/C03.json, assumptions)
+		for _, pn := range nonroot {
+			if pn.n.E.Len < 0 && pn.n.E.Len != -1 {
+				// GraftTipOnEdge halves an absent length (-1) to -0.5, -0.25 …: rounding those gives the float -0,
+				// which the rational dumps cannot carry
+				return "clearsupports"
+			}
+		}
+		return fmt.Sprintf("roundlengths:0:%s:%s", b2s(g.Chance(0.7)), b2s(g.Chance(0.7)))
 	case "rename":
 		var olds, news []string
 		for _, pn := range nodes {
@@ -692,7 +887,7 @@ func genOp(g *core.G, cur *core.N, k int) string {
 		}
 		return "renameregex:" + b2s(g.Chance(0.5)) + ":" + b2s(g.Chance(0.8)) + ":" + core.Escape(p[0]) + ":" + core.Escape(p[1])
 	case "addquotes", "rmquotes":
-		// the library indexes name[0]: only nodes with a non-empty name are offered (checks/C03.json, assumptions)
+		// the library indexes name[0]: mostly nodes with a non-empty name are offered
 		allNamed, tipsNamed := true, true
 		for _, pn := range nodes {
 			nn := len(pn.n.Kids)
@@ -708,7 +903,12 @@ func genOp(g *core.G, cur *core.N, k int) string {
 			}
 		}
 		internals := allNamed && g.Chance(0.5)
-		return kind + ":" + b2s(internals) + ":" + b2s(tipsNamed)
+		tipsFlag := tipsNamed
+		if g.Chance(0.1) {
+			// also where the library panics (empty name): the model predicts the panic
+			internals, tipsFlag = g.Chance(0.5), g.Chance(0.7)
+		}
+		return kind + ":" + b2s(internals) + ":" + b2s(tipsFlag)
 	case "subtree":
 		var cands []pnode
 		minKids := 2
@@ -736,7 +936,7 @@ func genHistory(c *core.Ctx, g *core.G, idx int) {
 		n = maxOps(c)
 	}
 	for k := 1; k <= n; k++ {
-		if !h.step(genOp(g, h.cur, k)) {
+		if !h.step(genOp(g, h, k)) {
 			return
 		}
 	}
